@@ -53,6 +53,19 @@ def std_dataset(rng, **kw):
     if kw['P'].get('chainy', 0) > 0.3 and rng.random() < 0.5:
         kw['maxleaves'] = max(kw['maxleaves'], rng.choice([9, 11, 13]))
     D = gen.make_dataset(rng, **kw)
+    lv_ = [p_ for p_ in gen.paths(D.T) if not gen.sub(D.T, p_)[1]]
+    if len(lv_) >= 2 and rng.random() < 0.1 and not D.meta.get('species_split'):
+        # two species whose names differ only by a blank vs an underscore ('Ecoli K12', 'Ecoli_K12'): different names, different
+        # species (r10-C01b: a name index that canonicalises blanks and underscores)
+        a_, b_ = rng.sample(lv_, 2)
+        ren_ = {gen.sub(D.T, a_)[0]: 'Ecoli K12', gen.sub(D.T, b_)[0]: 'Ecoli_K12'}
+        def rn_(t):
+            return (ren_.get(t[0], t[0]) if not t[1] else t[0], tuple(rn_(k_) for k_ in t[1]))
+        D.T = rn_(D.T)
+        D.species = [(ren_.get(n_, n_), g_) for n_, g_ in D.species]
+        D.groups = [g_ for p_, l_, _ in D.families for g_ in gen.encode(D.T, D.naming, p_, l_)]
+        D.base_groups = list(D.groups)
+        D.meta['twin_names'] = True
     # the tree text is varied too: branch lengths, and (synthesised names) no internal names
     D.meta['lengths'] = rng.random() < 0.3
     D.meta['nointernal'] = rng.random() < 0.3
@@ -283,7 +296,13 @@ def explore_load(prop, tier, seed, oracle, tags, n_quick, emit=(), with_truth=Fa
             ex.submit(cid, D, o.tags, ['load', 'genes', 'members', 'forest', 'genomes'], extra=o, hist=False)
             continue
         poke = prop in ('C02', 'C04') and ex.rng.random() < 0.15
-        h = load_or_fail(ex, cid, D, **(dict(phyloxml_dir=ex.tmp) if poke and ex.rng.random() < 0.4 else {}))
+        twice = (not poke) and prop in ('C01', 'C02', 'C04') and ex.rng.random() < 0.08
+        if twice:
+            # "in every loaded analysis": also the second one built in this process from the same, unchanged Newick file
+            # (r10-C01a / C17a: a module-level cache of parsed tree files)
+            ex.res.count('second_analysis_from_the_same_newick_file')
+            core.try_load(D, newick_dir=ex.tmp)
+        h = load_or_fail(ex, cid, D, **(dict(phyloxml_dir=ex.tmp) if poke and ex.rng.random() < 0.4 else dict(newick_dir=ex.tmp) if twice else {}))
         if h is None:
             continue
         o = ob.Obs(); o.put('load', 'ok')
@@ -296,6 +315,10 @@ def explore_load(prop, tier, seed, oracle, tags, n_quick, emit=(), with_truth=Fa
                 subs_ = [x for t in h.get_list_top_level_hogs() for x in all_nodes(t) if isinstance(x, ag.HOG) and x.parent is not None]
                 if subs_:
                     h.create_tree_profile(hog=ex.rng.choice(subs_))
+                # ... and iHam pages / exports (of HOGs carrying several duplication events in particular: r10-C02a)
+                multi_ = [x for t in h.get_list_top_level_hogs() for x in all_nodes(t) if isinstance(x, ag.HOG) and len(x.duplications) >= 2]
+                for x_ in (multi_[:2] + h.get_list_top_level_hogs()[:2]):
+                    h.create_iHam(x_); ob.OrthoXML_manager(x_).get_orthoxml_str()
             ob.observe_load(h, o)
             if pyobs:
                 pyobs(h, o)
@@ -341,6 +364,37 @@ def explore_load(prop, tier, seed, oracle, tags, n_quick, emit=(), with_truth=Fa
                     ex.fail(cid + '-spl', D, ['top-level species-level group: ' + x for x in b_[:4]], species=sp_, groups=gr_)
             except Exception:      # noqa
                 pass
+        if prop in ('C04', 'C01') and k % 6 == 1 and D.families and all(t_ is not None for _, _, t_ in D.families):      # (a filtered load needs ids on the families)
+            # a ParserFilter that served another load before (another file!) and is passed on unchanged selects what a fresh
+            # filter with the same queries selects (r10-C04a: the indexing pass memoised per query set)
+            xc_ = collections.Counter(v for _, gs_ in D.species for _, xr in gs_ for _, v in set(xr))
+            xv_ = sorted(v for v, c in xc_.items() if c >= 2) or sorted(xc_)      # (preferably a value several genes carry)
+            if xv_:
+                qv_ = ex.rng.choice(xv_)
+                prevD = getattr(ex, '_prevD', None)
+                try:
+                    fo_ = pyham.ParserFilter(); fo_.add_hogs_via_GeneExtId([qv_])
+                    if prevD is not None:
+                        try:
+                            core.load_py(prevD, filter_object=fo_)
+                        except Exception:      # noqa
+                            pass
+                    hs_ = core.load_py(D, filter_object=fo_)
+                    ff_ = pyham.ParserFilter(); ff_.add_hogs_via_GeneExtId([qv_])
+                    hf_ = core.load_py(D, filter_object=ff_)
+                    os_ = ob.Obs(); ob.observe_load(hs_, os_); of_ = ob.Obs(); ob.observe_load(hf_, of_)
+                    ex.res.count('filter_object_reused_on_another_file')
+                    dd_ = core.diff_tags(os_.tags, of_.tags, ['forest', 'genes', 'genomes', 'members'])
+                    if dd_ or os_.problems:
+                        ex.fail(cid + '-sf', D, ['a ParserFilter that served another file before selects differently from a fresh filter with the same query %r: %s' % (qv_, (dd_ or os_.problems)[:2])])
+                    # ... and the fresh filter selects every family holding a gene that carries the value (all carriers, r10-C04b)
+                    wantf_, _ = selected_families(D, set(), set(), {qv_})
+                    gotf_ = sorted(map(str, hf_.get_dict_top_level_hogs()))
+                    if gotf_ != sorted(map(str, wantf_)):
+                        ex.fail(cid + '-sf', D, ['load filtered by the cross-reference value %r holds the families %s, the families with a gene carrying it are %s' % (qv_, gotf_, sorted(map(str, wantf_)))])
+                except Exception as e:      # noqa
+                    ex.fail(cid + '-sf', D, ['filtered load with a re-used ParserFilter raised %s: %s' % (type(e).__name__, e)])
+        ex._prevD = D
         if prop == 'C04' and D.naming == 'own' and k % 4 == 0:
             # species_resolve_mode="OMA": a leaf declared by its code AND by the name of a clade that resolves to it has ONE
             # genome, which lists the genes of both <species> elements
@@ -441,6 +495,12 @@ def explore_maps(prop, tier, seed, n_quick, mode):
     n = budget(tier, n_quick)
     for k in range(n):
         D = respell(ex.rng, std_dataset(ex.rng)) if k >= 2 else large_dataset(ex.rng)
+        if k == 1 and D.species:
+            # ... one of whose genomes holds more than a thousand genes (family members plus singletons): r10-C07b, a second
+            # algorithm above a size threshold
+            i_ = max(range(len(D.species)), key=lambda j_: len(D.species[j_][1]))
+            D.species[i_] = (D.species[i_][0], list(D.species[i_][1]) + [('zs%d' % j_, [('protId', 'Pzs%d' % j_)]) for j_ in range(1100)])
+            ex.res.count('genomes_with_more_than_1000_genes')
         cid = '%s-%d' % (prop, k)
         ex.note_dataset(D)
         if ex.rng.random() < 0.2:
@@ -480,7 +540,8 @@ def explore_maps(prop, tier, seed, n_quick, mode):
             elif mode == 'C07':
                 triples, gs = orc.lineage_triples(h)
                 if len(triples) > 30 and tier == 'quick':
-                    triples = ex.rng.sample(triples, 30)
+                    big_ = [t_ for t_ in triples if len(gs[t_[2]].genes) > 1000]
+                    triples = (big_[:20] + ex.rng.sample(triples, 30 - min(20, len(big_)))) if big_ else ex.rng.sample(triples, 30)
                 ex.res.count('triples', len(triples))
                 bad = orc.c07(D, h, triples)
                 done = set()
@@ -618,11 +679,46 @@ def explore_profiles(prop, tier, seed, n_quick):
         if D.meta.get('undeclared_species') or any(not g for _, g in D.species):
             ex.res.count('cases_with_geneless_species')
         phylo = ex.rng.random() < 0.25      # TreeProfile re-reads a PhyloXML tree file: another code path
-        ex.res.count('tree_as_phyloxml_file' if phylo else 'tree_as_newick_string')
-        h = load_or_fail(ex, cid, D, **(dict(phyloxml_dir=ex.tmp) if phylo else {}))
+        nwkfile = (not phylo) and ex.rng.random() < 0.15
+        ex.res.count('tree_as_phyloxml_file' if phylo else 'tree_as_newick_file' if nwkfile else 'tree_as_newick_string')
+        h = load_or_fail(ex, cid, D, **(dict(phyloxml_dir=ex.tmp) if phylo else dict(newick_dir=ex.tmp) if nwkfile else {}))
         if h is None:
             continue
+        if nwkfile:
+            # an analysis loaded from a Newick file does not go back to the file (another tree may have been written under
+            # that name in the meantime): r10-C09b.  (PhyloXML input IS re-read by the unchanged code -- observation D13.)
+            with open(os.path.join(ex.tmp, 'tree.nwk'), 'w') as f_:
+                f_.write('((ZZ1,ZZ2)ZZ3,ZZ4)ZZ5;')
         o = ob.Obs(); o.put('load', 'ok'); subq = []
+        tids9 = [t_ for _, _, t_ in D.families]
+        if prop == 'C09' and not phylo and not nwkfile and k % 8 == 5 and len(tids9) >= 2 and all(t_ is not None for t_ in tids9):
+            # the SAME input arguments loaded again with another option (a filter): the profile of that second analysis is made
+            # of its own comparisons and balances (r10-C09a: maps shared between analyses, keyed by the input files)
+            try:
+                h.create_tree_profile()
+                f9_ = pyham.ParserFilter(); f9_.add_hogs_via_hogId([ex.rng.choice(tids9)])
+                hf9_ = core.load_py(D, filter_object=f9_)
+                ex.res.count('same_input_loaded_again_with_a_filter')
+                b9_ = orc.c09(D, hf9_, ex.tmp)
+                if b9_:
+                    ex.fail(cid + '-again', D, ['analysis of the same input loaded again through a filter: ' + x for x in b9_[:4]])
+            except Exception as e:      # noqa
+                ex.fail(cid + '-again', D, ['the same input loaded again through a filter raised %s: %s' % (type(e).__name__, e)])
+        if prop == 'C10' and k % 8 == 6 and tids9 and all(t_ is not None for t_ in tids9):
+            # the profiles of a FILTERED analysis (one family and one singleton gene named) add up as well (r10-C10b)
+            refd_ = set(orc.refs_of(D.groups))
+            single_ = [g_ for _, gs_ in D.species for g_, _ in gs_ if g_ not in refd_]
+            try:
+                f10_ = pyham.ParserFilter(); f10_.add_hogs_via_hogId([ex.rng.choice(tids9)])
+                if single_:
+                    f10_.add_hogs_via_GeneIntId([ex.rng.choice(single_)])
+                hf10_ = core.load_py(D, filter_object=f10_)
+                ex.res.count('profiles_of_a_filtered_analysis')
+                b10_ = orc.c10(D, hf10_)
+                if b10_:
+                    ex.fail(cid + '-flt', D, ['filtered analysis (one family, one singleton gene): ' + x for x in b10_[:4]])
+            except Exception as e:      # noqa
+                ex.fail(cid + '-flt', D, ['profiles of a filtered analysis raised %s: %s' % (type(e).__name__, e)])
         try:
             if ex.rng.random() < 0.4:
                 # the profile of some sub-HOG (preferably one written without id) is asked for first
@@ -672,9 +768,16 @@ def explore_profiles(prop, tier, seed, n_quick):
                         if nd.nbr_genes != mine.get(p_, 0):
                             bad.append('profile of the sub-HOG %s: nbr_genes at %s is %s, the HOG has %d members there' % (nodekey(x), taxS(p_), nd.nbr_genes, mine.get(p_, 0)))
                     ex.res.count('sub_hog_profiles')
-            held = [(tid, top, h.create_tree_profile(hog=top)) for tid, top in h.get_dict_top_level_hogs().items()]
+            # (every third per-family profile is also written to disk through the public entry point: the object handed back is
+            # still the whole profile -- r10-C10a prunes the returned tree while exporting it)
+            held = [(tid, top, h.create_tree_profile(hog=top, **(dict(outfile=ex.tmp + '/tph.html', as_html=True) if (k + j_) % 3 == 0 else {})))
+                    for j_, (tid, top) in enumerate(h.get_dict_top_level_hogs().items())]
             for tid, top, tph in held:      # read only after all of them exist
                 o.put('tphog', ob.osS(tid) + '|' + ob.profileS(tph.treemap, pathof(top.genome.taxon)))
+                q_ = pathof(top.genome.taxon)
+                nsub_ = sum(1 for p_ in gen.paths(D.T) if p_[:len(q_)] == q_)
+                if prop == 'C10' and sum(1 for _ in tph.treemap.traverse()) != nsub_:
+                    bad.append('the profile of family %s reports %d nodes, the species tree has %d nodes at or below its taxon' % (tid, sum(1 for _ in tph.treemap.traverse()), nsub_))
         except Exception as e:      # noqa
             bad = ['tree profile raised %s: %s' % (type(e).__name__, e)]
         if bad:
@@ -1106,7 +1209,34 @@ def c19(tier, seed):
             D.meta['labels_own'] = True
             ex.res.count('cases_with_labels_in_other_names')
         cid = 'C19-%d' % k
+        if k % 10 == 7 and not D.meta.get('nested') and not D.meta.get('labels_own'):
+            D.groups, nw_ = gen.redundant_wrappers(ex.rng, D.groups)
+            if nw_:
+                D.meta['wrapped'] = nw_; ex.res.count('cases_with_redundant_wrapper_groups')
         ex.note_dataset(D)
+        if k == 1:
+            # gzip transport of a document with long runs of two-byte characters in attribute values (cross-reference ids): a
+            # reader that decodes block by block splits a character at some block boundary (r10-C19a)
+            try:
+                import gzip as _gz
+                spz_ = [(n_, [(g_, list(xr_)) for g_, xr_ in gs_]) for n_, gs_ in D.species]
+                donez_ = 0
+                for n_, gs_ in spz_:
+                    for j_, (g_, xr_) in enumerate(gs_):
+                        if donez_ < 2:
+                            gs_[j_] = (g_, [(k_, v_) for k_, v_ in xr_ if k_ != 'protId'] + [('protId', ('x' * donez_) + 'é' * 40000)]); donez_ += 1
+                xmlz_ = gen.orthoxml(spz_, D.groups, style=dict(D.meta.get('style') or {}, latin1=False, late_species=None))
+                pz_ = os.path.join(ex.tmp, 'c19big.orthoxml.gz')
+                with _gz.open(pz_, 'wb') as fz_:
+                    fz_.write(xmlz_.encode('utf-8'))
+                hz_ = pyham.Ham(tree_file=core.nwk_of(D), hog_file=pz_, use_internal_name=(D.naming == 'own'))
+                wantz_ = {g_: dict(xr_) for _, gs_ in spz_ for g_, xr_ in gs_}
+                badz_ = [g_.unique_id for g_ in hz_.get_list_extant_genes() if g_.prot_id != wantz_[g_.unique_id].get('protId')]
+                ex.res.count('gzip_document_with_long_non_ascii_values')
+                if badz_:
+                    ex.fail(cid + '-gz', D, ['gzip transport: the protId of gene(s) %s is not the declared one (a two-byte character split at a block boundary?)' % badz_[:3]])
+            except Exception as e:      # noqa
+                ex.fail(cid + '-gz', D, ['gzip transport of a document with long non-ASCII values raised %s: %s' % (type(e).__name__, e)])
         h = load_or_fail(ex, cid, D)
         if h is None:
             continue
@@ -1230,7 +1360,7 @@ def c19(tier, seed):
                 bad.append('display string of gene %s raised %s' % (g.unique_id, type(e).__name__))
         if bad:
             ex.fail(cid, D, bad)
-        ex.submit(cid, D, o.tags, ['load', 'genes', 'loft'], emit=['ann'], extra=o, hist=not D.meta.get('labels_own'))
+        ex.submit(cid, D, o.tags, ['load', 'genes', 'loft'], emit=['ann'], extra=o, hist=not (D.meta.get('labels_own') or D.meta.get('wrapped')))
     def custom(cid, D, pytags, L, o):
         out = []
         py = {x.split('|', 1)[0]: x for x in pytags.get('annall', [])}
